@@ -221,11 +221,17 @@ def oracle(tier, rng, deep=False):
                     failures.append(dict(site=f"not-stationary-for-documented-objective:CoxEstimator:{method}", input=dict(X=X.tolist(), y=yc.tolist(), alpha=ac), observed=w.tolist(), expected=dict(violation=viol)))
             # SqrtLasso
             asq = float(np.max(np.abs(X.T @ y))) / np.linalg.norm(y) * 0.3
-            m = SqrtLasso(alpha=asq, tol=1e-9, max_iter=100).fit(X, y)
+            import warnings as _w
+            with _w.catch_warnings(record=True) as _wl:
+                _w.simplefilter("always")
+                m = SqrtLasso(alpha=asq, tol=1e-9, max_iter=100).fit(X, y)
+            # the square-root loss is not differentiable at a zero residual: when the fit is (nearly) exact the solver says so
+            # ("Small residuals prevented the solver from converging ...") and makes no claim of stationarity -- an explanation, not a failure
+            flagged = any("Small residuals" in str(x.message) for x in _wl)
             ev += 1
             w = m.coef_
             res = y - X @ w
-            if np.linalg.norm(res) > 1e-8:
+            if np.linalg.norm(res) > 1e-8 and not flagged:
                 gq = -X.T @ res / np.linalg.norm(res)
                 viol = max(max(0.0, abs(gq[j]) - asq) if w[j] == 0 else abs(gq[j] + asq * np.sign(w[j])) for j in range(p))
                 if viol > 1e-5:
